@@ -59,6 +59,36 @@ class Program:
         if base is None:
             return
         newfns = {k for k, r in self.ix.items() if r["kind"] in ("fn", "method") and r["name"] not in base and "::tests::" not in r["name"]}
+        # a function that was *moved* (free function -> method of the type it inspects, other module, other crate) is still the
+        # reviewed function: a new name whose last segment is that of exactly one baseline function that no longer exists (and
+        # is the only new function of that name) keeps the baseline name, so the rules that are anchored on it keep their subject
+        current = {r["name"] for r in self.ix.values()}
+        gone = defaultdict(list)
+        for b in base:
+            if b not in current and "::tests::" not in b and "{closure" not in b:
+                gone[b.split("::")[-1]].append(b)
+        fresh = defaultdict(list)
+        for k in newfns:
+            fresh[self.ix[k]["name"].split("::")[-1]].append(k)
+        self.moved = {}
+        for last, ks in fresh.items():
+            if len(ks) == 1 and len(gone.get(last, [])) == 1 and len(last) >= 6:
+                k, b = ks[0], gone[last][0]
+                old = self.ix[k]["name"]
+                self.moved[b] = old
+                for kk, r in self.ix.items():
+                    if r["name"] == old or r["name"].startswith(old + "::"):
+                        nn = b + r["name"][len(old):]
+                        if kk in self.by_name.get(r["name"], []):
+                            self.by_name[r["name"]].remove(kk)
+                        r["name"] = nn
+                        self.by_name[nn].append(kk)
+                        self.canon[kk] = nn
+                newfns.discard(k)
+        if self.moved:
+            for r in self.ix.values():
+                for c in r["calls"]:
+                    self._canon_callee(c["f"])
         cand = {k for k in newfns if not self.coroutine_of(k)}
         # new `async fn`s cannot be spliced (their body is a coroutine of its own); they are *adopted*: their bodies
         # count as nested bodies of every function that calls them (with_closures), so that rules which look at
